@@ -1103,13 +1103,34 @@ func init() { register("C03", ruleC03GroupRowAddressable) }
 func ruleC03GroupRowAddressable(c *Ctx) {
 	c.Doc("c03.group-row-addressable", "group emission (ExecGroupBy): each grouping value is stored into the group's row through SetPath(row, name, value) with (name, value) ranging over the group's key map — never under the flat dotted name, which no reader finds (every reader resolves `a.g` as the path a -> g); SetPath splits an unquoted name at the dots, descends creating maps and stores the value under the last part")
 	f := c.groupByFunc()
-	sp := c.P.Func(modPath, "SetPath")
 	if f == nil {
 		c.Unknown("c03.group-row-addressable", "ExecGroupBy", "-", "anchor lost")
 		return
 	}
+	// the path writer is whatever function the emission hands (row, name, value) of a key-map entry to
+	var sp *ssa.Function
 	var why []string
 	nSet := 0
+	isKeyMapEntry := func(k, v ssa.Value) bool {
+		kx, ok1 := k.(*ssa.Extract)
+		vx, ok2 := v.(*ssa.Extract)
+		if !ok1 || !ok2 || kx.Tuple != vx.Tuple || kx.Index != 1 || vx.Index != 2 {
+			return false
+		}
+		nx, ok := kx.Tuple.(*ssa.Next)
+		if !ok {
+			return false
+		}
+		_, isDeref := nx.Iter.(*ssa.Range).X.(*ssa.UnOp)
+		return isDeref
+	}
+	deepInstrs(f, func(g *ssa.Function, tb *TB, _ *ssa.BasicBlock, in ssa.Instruction) {
+		if x, ok := in.(*ssa.Call); ok && sp == nil {
+			if cal := x.Common().StaticCallee(); cal != nil && cal.Pkg == f.Pkg && len(x.Call.Args) == 3 && isKeyMapEntry(x.Call.Args[1], x.Call.Args[2]) {
+				sp = cal
+			}
+		}
+	})
 	deepInstrs(f, func(g *ssa.Function, tb *TB, _ *ssa.BasicBlock, in ssa.Instruction) {
 		isKeyMapEntry := func(k, v ssa.Value) bool {
 			kx, ok1 := k.(*ssa.Extract)
@@ -1136,35 +1157,137 @@ func ruleC03GroupRowAddressable(c *Ctx) {
 			}
 		}
 	})
+	var rawStore *ssa.MapUpdate
+	var rawUnjustified []string
 	if sp == nil {
-		why = append(why, "anchor lost: SetPath")
+		why = append(why, "the grouping values are not handed to a path writer (row, name, value)")
 	} else {
-		c.Fn("SetPath")
-		// shape of SetPath
-		split, lastStore, makes := false, false, false
-		allInstrs(sp, func(_ *ssa.BasicBlock, in ssa.Instruction) {
+		c.Fn(sp.Name())
+		// shape of SetPath: the keys of the path are the keys the READERS of the name walk — taken from the selector
+		// parser itself (a quoted part is one key, quotes removed) — the value is stored under the last of them along
+		// maps made on the way
+		parsed, makes, lastStore, literalOnQuote := false, false, false, false
+		allInstrs(sp, func(b *ssa.BasicBlock, in ssa.Instruction) {
 			switch x := in.(type) {
 			case *ssa.Call:
+				if cal := x.Common().StaticCallee(); cal != nil && (cal.Name() == "ParseSelector" || cal.Name() == "CachedSelectors") {
+					parsed = true
+				}
 				if a, ok := callArgs(NewTB().Of(x), "strings.Split"); ok && len(a) == 2 && a[0].Op == "param" && a[1].Name == `"."` {
-					split = true
+					// splitting the raw name at dots: right only for names without quoted parts
+					for _, fc := range factsAt(b) {
+						if strings.Contains(NewTB().Of(fc.cond).String(), "strings.ContainsAny") {
+							literalOnQuote = true
+						}
+					}
 				}
 			case *ssa.MakeMap:
 				makes = true
 			case *ssa.MapUpdate:
-				kt := NewTB().Of(x.Key)
-				if kt.Op == "index" && strings.Contains(kt.String(), "strings.Split(") && strings.Contains(kt.String(), "builtin:len(") {
-					if p, isP := x.Value.(*ssa.Parameter); isP && p == sp.Params[2] {
+				if p, isP := x.Value.(*ssa.Parameter); isP && p == sp.Params[2] {
+					kt := NewTB().Of(x.Key)
+					if kt.Op == "index" && strings.Contains(kt.String(), "builtin:len(") {
 						lastStore = true
+					}
+					if x.Key == ssa.Value(sp.Params[1]) {
+						// stored under the text of the name: right only where the parser itself says the name is not
+						// a path of keys (it failed, it produced nothing); the branch taken when a step of the path
+						// is not a key (a failed type assertion decides it) is the recorded finding
+						kind := rawStoreReason(b)
+						switch kind {
+						case "non-key":
+							rawStore = x
+						case "":
+							rawUnjustified = append(rawUnjustified, c.P.Pos(x.Pos()))
+						}
 					}
 				}
 			}
 		})
-		if !split || !lastStore || !makes {
-			why = append(why, fmt.Sprintf("SetPath does not store the value under the last part of the dotted name along a created path (split=%v, store at last part=%v, creates maps=%v)", split, lastStore, makes))
+		if literalOnQuote || !parsed {
+			why = append(why, "SetPath does not take the keys of the path from the selector parser: a name with a quoted part (`'first name'`, x.'first name') is stored under the literal text, quotes included, where no reader looks — the grouping column reads NULL in the output row and HAVING on it drops every group")
+		}
+		if len(rawUnjustified) > 0 {
+			why = append(why, "the value is stored under the literal text of the name ("+strings.Join(rawUnjustified, ", ")+") on a condition that does not come from the selector parser: a name the readers resolve as a path (a quoted part, a dotted name) is kept where no reader looks and reads NULL in the output row")
+		}
+		if !lastStore || !makes {
+			why = append(why, fmt.Sprintf("SetPath does not store the value under the last key along a created path (store at last key=%v, creates maps=%v)", lastStore, makes))
 		}
 	}
 	if nSet == 0 && len(why) == 0 {
 		why = append(why, "the grouping values are not stored through SetPath")
 	}
 	c.Check(len(why) == 0, "c03.group-row-addressable", "ExecGroupBy", c.P.Pos(f.Pos()), "grouping values stored along the path their names are read through", strings.Join(uniq(why), "; "))
+	if sp != nil {
+		pos := c.P.Pos(sp.Pos())
+		if rawStore != nil {
+			pos = c.P.Pos(rawStore.Pos())
+		}
+		c.Check(rawStore == nil, "c03.group-row-addressable", sp.Name()+"/non-key-step", pos, "no grouping value is stored under the text of a name whose path has a step that is not a key", "a grouping column with an index or reshaping step (`GROUP BY `tags[0]``) is stored under the literal text `tags[0]`, where no reader looks (the readers walk tags -> [0]): the column partitions the rows but reads NULL in the group's output row")
+	}
+}
+
+// rawStoreReason classifies the branch facts under which block b runs, for a store under the raw text of a name:
+// "parser" — the selector parser failed or produced nothing (emptiness of a slice); "non-key" — a type assertion
+// on a step of the path failed; "" — neither.
+func rawStoreReason(b *ssa.BasicBlock) string {
+	classify := func(fs []fact) string {
+		out := ""
+		for _, fc := range fs {
+			switch x := fc.cond.(type) {
+			case *ssa.Extract:
+				if _, isTA := x.Tuple.(*ssa.TypeAssert); isTA && !fc.truth {
+					return "non-key"
+				}
+			case *ssa.BinOp:
+				isNil := func(v ssa.Value) bool { k, ok := v.(*ssa.Const); return ok && k.IsNil() }
+				isZero := func(v ssa.Value) bool {
+					k, ok := v.(*ssa.Const)
+					return ok && k.Value != nil && k.Value.Kind() == constant.Int && k.Value.ExactString() == "0"
+				}
+				isLen := func(v ssa.Value) bool {
+					cl, ok := v.(*ssa.Call)
+					if !ok {
+						return false
+					}
+					bi, ok := cl.Call.Value.(*ssa.Builtin)
+					return ok && bi.Name() == "len"
+				}
+				isErr := func(v ssa.Value) bool {
+					ex, ok := v.(*ssa.Extract)
+					if !ok {
+						return false
+					}
+					cl, ok := ex.Tuple.(*ssa.Call)
+					return ok && cl.Common().StaticCallee() != nil && isErrorType2(ex.Type())
+				}
+				holds := (x.Op == token.NEQ && fc.truth) || (x.Op == token.EQL && !fc.truth)
+				empty := (x.Op == token.EQL && fc.truth) || (x.Op == token.NEQ && !fc.truth)
+				if (isErr(x.X) && isNil(x.Y) || isErr(x.Y) && isNil(x.X)) && holds {
+					out = "parser"
+				}
+				if (isLen(x.X) && isZero(x.Y) || isLen(x.Y) && isZero(x.X)) && empty {
+					out = "parser"
+				}
+			}
+		}
+		return out
+	}
+	if r := classify(factsAt(b)); r != "" {
+		return r
+	}
+	if len(b.Preds) > 1 {
+		all := ""
+		for _, p := range b.Preds {
+			r := classify(factsOnEdge(p, b))
+			if r == "" {
+				return ""
+			}
+			if all == "" || r == "non-key" {
+				all = r
+			}
+		}
+		return all
+	}
+	return ""
 }
